@@ -152,6 +152,18 @@ class MergeInterp(SetInterp):
             if isinstance(o, Obj) and isinstance(name, str):
                 o.attrs[name] = v
                 return None
+        if isinstance(f, ast.Name) and f.id in ("getattr", "hasattr") and 2 <= len(n.args) <= 3 and f.id not in env:
+            o = self.eval(n.args[0], env)
+            name = self.eval(n.args[1], env)
+            if isinstance(o, Obj) and isinstance(name, str):
+                has = name in o.attrs or (o.cls is not None and self.m.method(o.cls, name) is not None)
+                if f.id == "hasattr":
+                    return has
+                if has:
+                    return self.getattr(o, name, n)
+                if len(n.args) == 3:
+                    return self.eval(n.args[2], env)
+                raise Crash(f"`{src(n)[:50]}`: no attribute {name}")
         if isinstance(f, ast.Name) and f.id not in env:
             cls = self.m.resolve_class(self.module, f.id)
             if cls is not None and cls.is_dataclass:
